@@ -9,6 +9,7 @@ from typing import Annotated, Dict, List, Optional
 
 from experimaestro import (
     Config,
+    DataPath,
     Constant,
     LightweightTask,
     Meta,
@@ -60,6 +61,19 @@ class Leafx(Leaf):
     def __len__(self):
         # a user class may well be an (empty) collection: configuration and runtime object are then falsy
         return 0
+
+
+class Dat(Config):
+    """A configuration that carries a data file (copied next to the definition when the configuration is saved)."""
+    __xpmid__ = "u.dat"
+    v: Param[int] = 0
+    data: DataPath
+
+
+class DatBox(Config):
+    __xpmid__ = "u.datbox"
+    d: Param[Dat]
+    e: Param[Optional[Dat]] = None
 
 
 class Box(Config):
